@@ -47,6 +47,7 @@ def run_U(chk, prefixes, rule1="U1", rule2="U2", floor1=40, floor2=10):
     run_U8(chk, prefixes)
     run_U9(chk, prefixes)
     run_U10(chk, prefixes)
+    run_U11(chk, prefixes)
     chk.rule(rule1, "every parameter is read by the function that declares it (nothing the caller supplies is silently ignored)", floor=floor1)
     chk.rule(rule2, "every name bound by unpacking a tuple is read", floor=floor2)
     for f in prog.all_funcs():
@@ -420,6 +421,82 @@ def run_U9(chk, prefixes, rule="U9"):
                     f"item is processed (e.g. only the first unrolled output index is recorded) -- the usual result of a break losing one level of indentation")
         if not hits:
             chk.ok(rule, f, f"{f.short}: breaks sit in their loops", sample=False)
+
+
+# ------------------------------------------------------------------ U11 validation flag overwritten per iteration
+_U11_FIXTURE = """
+def f(items, first):
+    same = True
+    for k, v in items:
+        same = first.setdefault(k, v) == v
+    if not same:
+        raise ValueError("inconsistent")
+"""
+
+
+def _overwritten_flags(fn):
+    """[(flag, loop, store, guard)]: a name initialised with True/False in front of a loop, assigned inside the loop from an expression that
+    does not mention it (and not under a test that mentions it), never tested inside the loop, and after the loop used only in the test of an
+    `if` that raises: the guard was meant to hold for every iteration and sees the last one only."""
+    out = []
+    body_lists = [n.body for n in ast.walk(fn) if hasattr(n, "body") and isinstance(getattr(n, "body"), list)]
+    body_lists += [n.orelse for n in ast.walk(fn) if getattr(n, "orelse", None) and isinstance(n.orelse, list)]
+    body_lists += [n.finalbody for n in ast.walk(fn) if getattr(n, "finalbody", None)]
+    for body in body_lists:
+        for i, st in enumerate(body):
+            # the loop may sit directly in this block or inside a try: that does (the flag's initialisation then sits in the try body too)
+            if not isinstance(st, (ast.For, ast.While)):
+                continue
+            inits = {}
+            for prev in body[:i]:
+                if isinstance(prev, ast.Assign):
+                    tg, vals = prev.targets[0], prev.value
+                    pairs = list(zip(tg.elts, vals.elts)) if isinstance(tg, ast.Tuple) and isinstance(vals, ast.Tuple) and len(tg.elts) == len(vals.elts) \
+                        else [(tg, vals)]
+                    for t_, v_ in pairs:
+                        if isinstance(t_, ast.Name) and isinstance(v_, ast.Constant) and isinstance(v_.value, bool):
+                            inits[t_.id] = prev
+            for flag in inits:
+                stores = [n for n in ast.walk(st) if isinstance(n, ast.Assign) and any(isinstance(t_, ast.Name) and t_.id == flag for t_ in n.targets)]
+                aug = [n for n in ast.walk(st) if isinstance(n, ast.AugAssign) and isinstance(n.target, ast.Name) and n.target.id == flag]
+                if len(stores) != 1 or aug:
+                    continue
+                sto = stores[0]
+                reads_in_loop = [n for n in ast.walk(st) if isinstance(n, ast.Name) and n.id == flag and isinstance(n.ctx, ast.Load)]
+                if reads_in_loop:
+                    continue        # accumulated (`f = f and c`), tested (`if not f: break`) or otherwise consumed per iteration
+                if isinstance(sto.value, ast.Constant):
+                    continue        # `if bad: flag = False` -- a latch
+                if any(isinstance(n, (ast.Break, ast.Return)) for n in ast.walk(st)):
+                    continue        # the loop can stop at the deciding iteration
+                # after the loop: every read sits in the test of an `if` whose body raises
+                rest_reads = [n for n in ast.walk(fn) if isinstance(n, ast.Name) and n.id == flag and isinstance(n.ctx, ast.Load)]
+                guards = [g for g in ast.walk(fn) if isinstance(g, ast.If) and any(isinstance(b, ast.Raise) for b in g.body)
+                          and any(n in rest_reads for n in ast.walk(g.test))]
+                in_guards = [n for g in guards for n in ast.walk(g.test) if n in rest_reads]
+                if guards and len(in_guards) == len(rest_reads) and all(g.lineno > st.lineno for g in guards):
+                    out.append((flag, st, sto, guards[0]))
+    return out
+
+
+def run_U11(chk, prefixes, rule="U11"):
+    prog = chk.prog
+    chk.rule(rule, "a validation flag that guards a raise after a loop is accumulated over the iterations, not overwritten by each of them", floor=0)
+    fx = [n for n in ast.parse(_U11_FIXTURE).body if isinstance(n, ast.FunctionDef)][0]
+    if [x[0] for x in _overwritten_flags(fx)] != ["same"]:
+        raise AnalysisError("U11: the built-in positive fixture is not recognised (rule broken)")
+    for f in prog.all_funcs():
+        if not f.module.name.startswith(tuple(prefixes)) or "torch" in f.module.name:
+            continue
+        if not any(isinstance(n, ast.Raise) for n in ast.walk(f.node)) or not any(isinstance(n, (ast.For, ast.While)) for n in ast.walk(f.node)):
+            continue
+        hits = _overwritten_flags(f.node)
+        for flag, lp, sto, g in hits:
+            chk.bad(rule, (f, sto), f"{f.short}: `{A.short(sto, 60)}`", f"{f.short}(): the flag `{flag}` is overwritten by every iteration of `{A.short(lp, 40)}` "
+                    f"(`{A.short(sto, 60)}` does not involve its previous value) and is tested only after the loop by the guard `if {A.short(g.test, 40)}: raise`: "
+                    f"only the last iteration decides, an inconsistency met earlier is forgotten (e.g. a pattern whose last site agrees is accepted)")
+        if not hits:
+            chk.ok(rule, f, f"{f.short}: no overwritten validation flag", sample=False)
 
 
 # ------------------------------------------------------------------ U10 keyword swallowed by a named parameter
